@@ -316,7 +316,9 @@ func runPath(sh *Shared, pkg *ssa.Package, fn *ssa.Function, it workItem, sv *so
 					m = ps.model
 				}
 				ps.violate("hang@"+i.hangSite, i.hangSite, "instruction budget exhausted (possible non-termination)", m)
-				res.status = "ok"
+				// the path was not followed to its end: undecided unless the candidate is confirmed
+				res.status, res.why = "undecided", p.why
+			default:
 				res.status, res.why = "undecided", p.why
 			}
 		case stackExhaustion:
